@@ -253,7 +253,90 @@ def standin_numeric_grid(tier, seed):
                 bound="17 families x 6 (quick) / 60 (thorough) seeded parameter tuples from a 7-value grid", cases=cases, distinct=cases, failures=len(fails),
                 exhaustive=False, _fails=fails[:3])
 standin_numeric_grid.prop = "C03"
-STANDINS = [standin_channels, standin_numeric_grid]
+def standin_other_gates(tier, seed):
+    """gates defined by a rule rather than a closed form: the unitary equals the rule evaluated by brute force"""
+    import itertools
+    import random
+
+    import cirq
+
+    rng = random.Random(seed + 2)
+    cases, fails = 0, []
+
+    def bad(what, **kw):
+        fails.append(dict(args={k: repr(v)[:300] for k, v in kw.items()}, failed=what, clause=what))
+
+    # BooleanHamiltonianGate: diagonal, phase linear in the NUMBER of expressions that are true (documentation gives t/2 and -t in
+    # different places; any of +-t/2, +-t is accepted, up to global phase)
+    exprs_list = [["a"], ["a & b"], ["a ^ b"], ["a ^ b", "b ^ c"], ["a & b", "b & c"], ["a", "a & b"], ["a | b", "a & c", "b ^ c"], ["a & b", "a & b"], ["~a", "a | ~b"], ["a & b & c", "a & b"]]
+    for exprs in exprs_list:
+        names = sorted({ch for e in exprs for ch in e if ch.isalpha()})
+        for theta in (0.3, 1.1, -0.7):
+            cases += 1
+            g = cirq.BooleanHamiltonianGate(names, exprs, theta)
+            U = cirq.unitary(g)
+            counts = []
+            for bits in itertools.product((0, 1), repeat=len(names)):
+                env = dict(zip(names, map(bool, bits)))
+                counts.append(sum(bool(eval(e.replace("~", " not ").replace("&", " and ").replace("|", " or ").replace("^", " != "), {}, env)) for e in exprs))
+            ok = False
+            for alpha in (theta / 2, -theta / 2, theta, -theta):
+                want = np.diag(np.exp(1j * alpha * np.array(counts)))
+                ok = ok or cirq.allclose_up_to_global_phase(U, want, atol=1e-7)
+            if not ok:
+                bad("BooleanHamiltonianGate is not the diagonal whose phase counts the true expressions", parameter_names=names, boolean_strs=exprs, theta=theta)
+    for n in (1, 2, 3, 4):
+        for wr in (False, True):
+            cases += 1
+            U = cirq.unitary(cirq.QuantumFourierTransformGate(n, without_reverse=wr))
+            N = 2 ** n
+            F_ = np.array([[np.exp(2j * np.pi * j * k / N) for k in range(N)] for j in range(N)]) / np.sqrt(N)
+            if wr:  # without the final reversal the output bits come out reversed
+                rev = [int(format(i, f"0{n}b")[::-1], 2) for i in range(N)]
+                F_ = F_[rev, :]
+            if not np.allclose(U, F_, atol=1e-8):
+                bad("QuantumFourierTransformGate differs from the DFT matrix", n=n, without_reverse=wr)
+        for e in (1, 0.5, -0.3):
+            cases += 1
+            U = cirq.unitary(cirq.PhaseGradientGate(num_qubits=n, exponent=e))
+            if not np.allclose(U, np.diag([np.exp(2j * np.pi * e * k / 2 ** n) for k in range(2 ** n)]), atol=1e-8):
+                bad("PhaseGradientGate differs from diag(exp(2 pi i e k / 2^n))", n=n, exponent=e)
+    for n in (1, 2, 3):
+        ang = [rng.uniform(-3, 3) for _ in range(2 ** n)]
+        cases += 1
+        g = {1: cirq.DiagonalGate, 2: cirq.TwoQubitDiagonalGate, 3: cirq.ThreeQubitDiagonalGate}[n](ang)
+        if not np.allclose(cirq.unitary(g), np.diag(np.exp(1j * np.array(ang))), atol=1e-8):
+            bad(f"{type(g).__name__} differs from diag(exp(i angles))", angles=ang)
+        if not np.allclose(cirq.unitary(cirq.DiagonalGate(ang)), np.diag(np.exp(1j * np.array(ang))), atol=1e-8):
+            bad("DiagonalGate differs from diag(exp(i angles))", angles=ang)
+    for perm in itertools.chain(itertools.permutations(range(3)), [(1, 0), (0, 1), (2, 0, 3, 1)]):
+        cases += 1
+        n = len(perm)
+        U = cirq.unitary(cirq.QubitPermutationGate(list(perm)))
+        want = np.zeros((2 ** n, 2 ** n))
+        for bits in itertools.product((0, 1), repeat=n):
+            out = [0] * n
+            for i, b in enumerate(bits):
+                out[perm[i]] = b  # documented: the state of qubit i moves to qubit permutation[i]
+            want[int("".join(map(str, out)), 2), int("".join(map(str, bits)), 2)] = 1
+        if not np.allclose(U, want):
+            bad("QubitPermutationGate does not move qubit i to position permutation[i]", permutation=perm)
+    for m, n in ((1, 1), (2, 1), (3, 2), (5, 3), (8, 3), (6, 3)):
+        cases += 1
+        col = cirq.unitary(cirq.UniformSuperpositionGate(m, n))[:, 0]
+        want = np.array([1 / np.sqrt(m)] * m + [0] * (2 ** n - m))
+        if not np.allclose(np.abs(col), want, atol=1e-8):
+            bad("UniformSuperpositionGate does not map |0..0> to the uniform superposition of the first m states", m=m, n=n)
+    seen, uniq = set(), []
+    for f in fails:
+        if f["failed"] not in seen:
+            seen.add(f["failed"])
+            uniq.append(f)
+    return dict(function="cirq-core/cirq/ops[rule-defined gates: boolean Hamiltonian, QFT, phase gradient, diagonal, permutation, uniform superposition]", case="other-gates",
+                bound="10 expression lists x 3 angles; QFT / phase gradient on 1-4 qubits; diagonal gates on 1-3 qubits; all permutations of 3 (+3); 6 uniform superpositions",
+                cases=cases, distinct=cases, failures=len(fails), exhaustive=False, _fails=uniq[:4])
+standin_other_gates.prop = "C03"
+STANDINS = [standin_channels, standin_numeric_grid, standin_other_gates]
 
 
 def _replay(ob, seed):
